@@ -224,10 +224,60 @@ func (c *Ctx) commitViews() {
 	}
 }
 
+// namespaceReceivers: the pure namespace methods (AddInt, Compare and the predicates, Bytes/ID, validation,
+// JSON) with package-level namespaces and namespaces that are views into one buffer as receivers and arguments
+func (c *Ctx) namespaceReceivers() {
+	pkg := []share.Namespace{share.TxNamespace, share.IntermediateStateRootsNamespace, share.PayForBlobNamespace, share.PrimaryReservedPaddingNamespace,
+		share.MaxPrimaryReservedNamespace, share.MinSecondaryReservedNamespace, share.TailPaddingNamespace, share.ParitySharesNamespace}
+	var raw [][]byte
+	for _, ns := range pkg {
+		raw = append(raw, ns.Bytes())
+	}
+	raw = append(raw, v0ns(1).Bytes(), v0ns(0xff, 0xff).Bytes(), v0ns(bytes.Repeat([]byte{0xff}, 10)...).Bytes(), v0ns(1, 0, 0, 0).Bytes())
+	for _, gap := range []int{0, 3, 40} {
+		flat, views := flatten(raw, gap)
+		var recv []share.Namespace
+		for _, v := range views {
+			ns, err := share.NewNamespaceFromBytes(v)
+			if err != nil {
+				continue
+			}
+			recv = append(recv, ns)
+		}
+		// the package-level values themselves as receivers: pkgSnapshot inside aliasCheck watches them
+		recv = append(recv, pkg...)
+		var calls []roCall
+		for i := range recv {
+			n := recv[i]
+			for _, v := range []int{0, 1, -1, 255, 256, -256, 1 << 20, -(1 << 20), 1 << 40} {
+				v := v
+				calls = append(calls, roCall{fmt.Sprintf("Namespace.AddInt(%x, %d)", n.Bytes(), v), func() string {
+					r, err := n.AddInt(v)
+					return hx(r.Bytes()) + fmt.Sprint(err != nil)
+				}})
+			}
+			calls = append(calls, roCall{fmt.Sprintf("Namespace predicates/accessors (%x)", n.Bytes()), func() string {
+				out := fmt.Sprint(n.Version(), hx(n.ID()), hx(n.Bytes()), n.String(), n.IsReserved(), n.IsPrimaryReserved(), n.IsSecondaryReserved(), n.IsUsableNamespace(),
+					n.IsParityShares(), n.IsTailPadding(), n.IsPrimaryReservedPadding(), n.IsTx(), n.IsPayForBlob(), n.ValidateForData() == nil, n.ValidateForBlob() == nil,
+					n.IsEmpty(), len(n.Repeat(2)))
+				for _, m := range recv {
+					out += fmt.Sprint(n.Compare(m), n.Equals(m), n.IsLessThan(m), n.IsLessOrEqualThan(m), n.IsGreaterThan(m), n.IsGreaterOrEqualThan(m))
+				}
+				j, err := n.MarshalJSON()
+				return out + string(j) + fmt.Sprint(err != nil)
+			}})
+		}
+		c.aliasCheck(fmt.Sprintf("namespace receivers gap=%d", gap), flat, calls)
+		c.stats.Cases++
+	}
+	c.dist("namespace-receivers")
+}
+
 func streamAlias(c *Ctx) {
 	c.stats.Cases = 0
 	c.freshResults()
 	c.commitViews()
+	c.namespaceReceivers()
 	nc := c.n(300, 4000)
 	for i := 0; i < nc; i++ {
 		c.stats.Cases++
